@@ -18,8 +18,13 @@ pub fn sign(case: &Value, reg: &Registry) -> Value {
     let signed = case["signed"].clone();
     let r = guarded(|| -> in_toto::Result<Metablock> {
         match via {
-            "raw_builder" => {
-                let raw = serde_json::to_vec(&signed).unwrap();
+            "raw_builder" | "raw_builder_pretty" => {
+                // the caller's bytes are one of many texts of the document, not its canonical form
+                let raw = if via == "raw_builder" {
+                    serde_json::to_vec(&signed).unwrap()
+                } else {
+                    serde_json::to_vec_pretty(&signed).unwrap()
+                };
                 Ok(MetablockBuilder::from_raw_metadata(&raw)?
                     .sign(&signers)?
                     .build())
